@@ -254,44 +254,62 @@ def compatible(spec, got):
     return len(got) == n
 
 
-def culprit(spec, exp, got):
-    """class of the innermost spelling / container at which exp and got
-    part ways (exp = json.loads of render(spec))"""
+def culprits(spec, exp, got, out):
+    """classes of ALL innermost spellings / containers at which exp and got
+    part ways (exp = json.loads of render(spec)); collecting all of them
+    keeps one defect from masking another inside the same value.  Naming
+    only - the verdict itself is strict_eq."""
     k = spec[0]
     if k == 'a':
-        return ATOMS[spec[1]][1]
+        out.add(ATOMS[spec[1]][1])
+        return
+    found = 0
     if k == 'l':
         n = len(spec[1])
         if type(got) is not list or len(got) != n:
-            return 'array-size%d' % n
+            out.add('array-size%d' % n)
+            return
         for c, e, g in zip(spec[1], exp, got):
             if not strict_eq(e, g):
-                return culprit(c, e, g)
-        return 'array-size%d' % n
+                culprits(c, e, g, out)
+                found += 1
+        if not found:
+            out.add('array-size%d' % n)
+        return
     n = len(spec[1])
     if type(got) is not dict:
-        return 'object-size%d' % n
+        out.add('object-size%d' % n)
+        return
     decoded = [json.loads(KEYS[ki][0]) for ki, c in spec[1]]
     dup = len(set(decoded)) != len(decoded)
-    if set(got) != set(exp):
-        for (ki, c), dk in zip(spec[1], decoded):
-            if dk not in got:
-                return KEYS[ki][1]
-        return 'object-size%d-extra-key' % n
     last = {}
     for (ki, c), dk in zip(spec[1], decoded):
-        last[dk] = c
-    for dk in sorted(last):
-        if not strict_eq(exp[dk], got[dk]):
-            if dup:
-                # which of the two duplicates won is part of the verdict
-                # (naming only - the verdict itself is strict_eq above)
-                if any(strict_eq(got[dk], json.loads(render(c)))
-                       for ki, c in spec[1]) or \
-                        not compatible(last[dk], got[dk]):
-                    return 'object-duplicate-key-order'
-            return culprit(last[dk], exp[dk], got[dk])
-    return 'object-size%d' % n
+        last[dk] = (ki, c)
+    missing = sorted(dk for dk in exp if dk not in got)
+    extra = sorted((x for x in got if x not in exp), key=repr)
+    for dk in missing:
+        out.add(KEYS[last[dk][0]][1])
+        found += 1
+    if extra and not missing:
+        out.add('object-size%d-extra-key' % n)
+        found += 1
+    pairs = [(dk, dk) for dk in sorted(exp) if dk in got]
+    if len(missing) == 1 and len(extra) == 1:
+        # presumably the same entry under a wrongly decoded key
+        pairs.append((missing[0], extra[0]))
+    for dk, gk in pairs:
+        if strict_eq(exp[dk], got[gk]):
+            continue
+        found += 1
+        if dup and (any(strict_eq(got[gk], json.loads(render(c)))
+                        for ki, c in spec[1]) or
+                    not compatible(last[dk][1], got[gk])):
+            # which of the two duplicates won is part of the verdict
+            out.add('object-duplicate-key-order')
+            continue
+        culprits(last[dk][1], exp[dk], got[gk], out)
+    if not found:
+        out.add('object-size%d' % n)
 
 
 def leaves(spec, out=None):
@@ -402,10 +420,13 @@ class Judge(object):
         got = scope[NAME]
         out = 'equal'
         if not strict_eq(exp, got):
-            bag.add('C19|value-differs|atom=%s|%s' % (
-                culprit(spec, exp, got), ctx), witness,
-                '%s -> %r under %r; json.loads gives %r' % (
-                    src, got, NAME, exp))
+            who = set()
+            culprits(spec, exp, got, who)
+            for cls in sorted(who):
+                bag.add('C19|value-differs|atom=%s|%s' % (cls, ctx),
+                        witness,
+                        '%s -> %r under %r; json.loads gives %r' % (
+                            src, got, NAME, exp))
             out = 'value-differs'
         if set(scope) != set([NAME]):
             extra = sorted(repr(k) for k in scope if k != NAME)
@@ -422,7 +443,7 @@ def nontrivial(spec):
 def settings(tier):
     if tier == 'quick':
         return 3, REP_QUICK, CORE_QUICK, 1
-    return 4, REP_THOROUGH, CORE_THOROUGH, 3
+    return 4, REP_THOROUGH, CORE_THOROUGH, 2
 
 
 def run(tier, rep):
